@@ -15,7 +15,7 @@ namespace Mxl.C07Expr
 inductive Tok where
   | num (q : Rat) (src : String)      -- value and spelling of a literal
   | id (x : String)
-  | plus | minus | star | slash | lp | rp
+  | plus | minus | star | slash | pct | lp | rp
 deriving Repr, DecidableEq, Inhabited
 
 inductive E where
@@ -26,9 +26,13 @@ inductive E where
   | sub (a b : E)
   | mul (a b : E)
   | div (a b : E)
+  | mod (a b : E)       -- Python's `%` (sign of the divisor); only the Python texts have it
 deriving Repr, DecidableEq, Inhabited
 
 abbrev Env := String → Option Rat
+
+/-- Python's `x % y` on rationals: `x - y * floor(x / y)` -/
+def pyMod (x y : Rat) : Rat := x - y * ((x / y).floor : Int)
 
 /-- value of an expression; an unknown name or a division by zero has none -/
 def E.eval (env : Env) : E → Option Rat
@@ -39,25 +43,30 @@ def E.eval (env : Env) : E → Option Rat
   | .sub a b => do let x ← a.eval env; let y ← b.eval env; pure (x - y)
   | .mul a b => do let x ← a.eval env; let y ← b.eval env; pure (x * y)
   | .div a b => do let x ← a.eval env; let y ← b.eval env; if y = 0 then none else pure (x / y)
+  | .mod a b => do let x ← a.eval env; let y ← b.eval env; if y = 0 then none else pure (pyMod x y)
 
 /-! ### printing by precedence -/
 
 def E.prec : E → Nat
   | .add _ _ | .sub _ _ => 1
-  | .mul _ _ | .div _ _ => 2
-  | .neg _ => 3
-  | .num _ _ | .var _ => 4
+  | .mod _ _ => 2          -- sympy ranks a remainder with the sums; `_print_Mod` writes its own parentheses
+  | .mul _ _ | .div _ _ => 3
+  | .neg _ => 4
+  | .num _ _ | .var _ => 5
 
 mutual
 /-- the tokens of an expression -/
 def E.print : E → List Tok
   | .num q s => [.num q s]
   | .var x => [.id x]
-  | .neg a => .minus :: a.pp 3
-  | .add a b => a.pp 1 ++ .plus :: b.pp 2
-  | .sub a b => a.pp 1 ++ .minus :: b.pp 2
-  | .mul a b => a.pp 2 ++ .star :: b.pp 3
-  | .div a b => a.pp 2 ++ .slash :: b.pp 3
+  | .neg a => .minus :: a.pp 4
+  | .add a b => a.pp 1 ++ .plus :: b.pp 2      -- a further sum on the right keeps its parentheses, a remainder has its own
+  | .sub a b => a.pp 1 ++ .minus :: b.pp 3     -- `a - b` is `a + (-1)*b`: the right operand is printed as a factor
+  | .mul a b => a.pp 3 ++ .star :: b.pp 4
+  | .div a b => a.pp 3 ++ .slash :: b.pp 4
+  -- the repository's `_PythonPrinter._print_Mod` with `_mod_operands`: `(<a> % <b>)`, an operand in parentheses unless
+  -- it is a single name or number (level 5)
+  | .mod a b => .lp :: (a.pp 5 ++ .pct :: (b.pp 5 ++ [.rp]))
 /-- `parenthesize(item, level)`: in parentheses iff the operand binds less tightly than its position requires -/
 def E.pp (lvl : Nat) : E → List Tok
   | e => if e.prec < lvl then .lp :: e.print ++ [.rp] else e.print
@@ -91,6 +100,8 @@ def rd (env : Env) : Nat → Mode → List Tok → Option (Rat × List Tok)
     | .star :: r => (rd env n .unary r).bind fun wr => rd env n (.loop2 (acc * wr.1)) wr.2
     | .slash :: r => (rd env n .unary r).bind fun wr =>
         if wr.1 = 0 then none else rd env n (.loop2 (acc / wr.1)) wr.2
+    | .pct :: r => (rd env n .unary r).bind fun wr =>
+        if wr.1 = 0 then none else rd env n (.loop2 (pyMod acc wr.1)) wr.2
     | _ => some (acc, ts)
   | n + 1, .loop1 acc, ts =>
     match ts with
@@ -128,6 +139,7 @@ def parse : Nat → PMode → List Tok → Option (E × List Tok)
     match ts with
     | .star :: r => (parse n .unary r).bind fun wr => parse n (.loop2 (.mul acc wr.1)) wr.2
     | .slash :: r => (parse n .unary r).bind fun wr => parse n (.loop2 (.div acc wr.1)) wr.2
+    | .pct :: r => (parse n .unary r).bind fun wr => parse n (.loop2 (.mod acc wr.1)) wr.2
     | _ => some (acc, ts)
   | n + 1, .loop1 acc, ts =>
     match ts with
@@ -179,42 +191,45 @@ def lexNum (cs : List Char) : Option (Rat × String × List Char) :=
     let r4 := dropPrefix "_f64".toList r3
     some (val, String.mk (cs.take (cs.length - r4.length)), r4)
 
-/-- tokens of an expression text; `none` = outside the fragment (`**`, `%`, calls, methods, …).  `jl`: Julia's
-    element-wise spellings `.*` `./` `.+` `.-` -/
-def lex (jl : Bool) : Nat → List Char → Option (List Tok)
+/-- tokens of an expression text; `none` = outside the fragment (`**`, calls, methods, …).  `jl`: Julia's
+    element-wise spellings `.*` `./` `.+` `.-`; `py`: `%` is Python's remainder (the other languages' texts write a remainder
+    differently: `((a % b) + b) % b` with the sign of the dividend in JavaScript, `floor` in Rust / Julia) -/
+def lex (jl py : Bool) : Nat → List Char → Option (List Tok)
   | 0, _ => none
   | _ + 1, [] => some []
   | n + 1, c :: cs =>
-    if c == ' ' then lex jl n cs
+    if c == ' ' then lex jl py n cs
     else if c.isDigit then
       match lexNum (c :: cs) with
-      | some (q, s, r) => (lex jl n r).map (Tok.num q s :: ·)
+      | some (q, s, r) => (lex jl py n r).map (Tok.num q s :: ·)
       | none => none
     else if isIdStart c then
       let (w, r) := (c :: cs).span isIdChar
       match r with
       | '(' :: _ => none
       | '.' :: _ => none
-      | _ => (lex jl n r).map (Tok.id (String.mk w) :: ·)
+      | _ => (lex jl py n r).map (Tok.id (String.mk w) :: ·)
     else
       match c, cs with
-      | '+', _ => (lex jl n cs).map (Tok.plus :: ·)
-      | '-', _ => (lex jl n cs).map (Tok.minus :: ·)
+      | '+', _ => (lex jl py n cs).map (Tok.plus :: ·)
+      | '-', _ => (lex jl py n cs).map (Tok.minus :: ·)
       | '*', '*' :: _ => none
-      | '*', _ => (lex jl n cs).map (Tok.star :: ·)
-      | '/', _ => (lex jl n cs).map (Tok.slash :: ·)
-      | '(', _ => (lex jl n cs).map (Tok.lp :: ·)
-      | ')', _ => (lex jl n cs).map (Tok.rp :: ·)
-      | '.', '*' :: r => if jl then (lex jl n r).map (Tok.star :: ·) else none
-      | '.', '/' :: r => if jl then (lex jl n r).map (Tok.slash :: ·) else none
-      | '.', '+' :: r => if jl then (lex jl n r).map (Tok.plus :: ·) else none
-      | '.', '-' :: r => if jl then (lex jl n r).map (Tok.minus :: ·) else none
+      | '*', _ => (lex jl py n cs).map (Tok.star :: ·)
+      | '/', _ => (lex jl py n cs).map (Tok.slash :: ·)
+      | '%', _ => if py then (lex jl py n cs).map (Tok.pct :: ·) else none
+      | '(', _ => (lex jl py n cs).map (Tok.lp :: ·)
+      | ')', _ => (lex jl py n cs).map (Tok.rp :: ·)
+      | '.', '*' :: r => if jl then (lex jl py n r).map (Tok.star :: ·) else none
+      | '.', '/' :: r => if jl then (lex jl py n r).map (Tok.slash :: ·) else none
+      | '.', '+' :: r => if jl then (lex jl py n r).map (Tok.plus :: ·) else none
+      | '.', '-' :: r => if jl then (lex jl py n r).map (Tok.minus :: ·) else none
       | _, _ => none
 
-def lexText (jl : Bool) (s : String) : Option (List Tok) := lex jl (s.length + 1) s.toList
+def lexText (jl py : Bool) (s : String) : Option (List Tok) := lex jl py (s.length + 1) s.toList
 
 def Tok.text : Tok → String
-  | .num _ s => s | .id x => x | .plus => " + " | .minus => "-" | .star => "*" | .slash => "/" | .lp => "(" | .rp => ")"
+  | .num _ s => s | .id x => x | .plus => " + " | .minus => "-" | .star => "*" | .slash => "/" | .pct => " % "
+  | .lp => "(" | .rp => ")"
 
 /-- the assignment lines of a generated function, read and evaluated one after the other: every right-hand side is
     lexed, read with `evalToks` in the environment of the inputs and the earlier targets, and its target bound.
@@ -226,11 +241,11 @@ inductive LineErr where
   | noValue (target : String)
 deriving Repr
 
-def runLines (jl : Bool) : List (String × String) → List (String × Rat) → List (Bool × Bool) →
+def runLines (jl py : Bool) : List (String × String) → List (String × Rat) → List (Bool × Bool) →
     Except LineErr (List (String × Rat) × List (Bool × Bool))
   | [], env, flags => .ok (env, flags.reverse)
   | (k, text) :: rest, env, flags =>
-    match lexText jl text with
+    match lexText jl py text with
     | none => .error (.unsupported k)
     | some ts =>
       match evalToks (fun x => env.lookup x) ts with
@@ -238,6 +253,6 @@ def runLines (jl : Bool) : List (String × String) → List (String × Rat) → 
       | some v =>
         let same := match parseToks ts with | some e => e.print == ts | none => false
         let tree := match parseToks ts with | some e => e.eval (fun x => env.lookup x) == some v | none => false
-        runLines jl rest ((k, v) :: env) ((same, tree) :: flags)
+        runLines jl py rest ((k, v) :: env) ((same, tree) :: flags)
 
 end Mxl.C07Expr
